@@ -762,7 +762,7 @@ pub fn run(report: &Report) {
     super::pyfront::sweep(report, "views", if q { 3 } else { 4 }, "every constructor that takes compressed words (8) on every word string up to the listed length over 6 words, and every call form that takes symbol / parameter arrays (3 coders x 2 forms) on every message up to length 4: a negative-stride view, a stride-2 view and an interior slice must be read like a contiguous copy", &["symbol."], &[]);
     super::pyfront::sweep(report, "symbol", if q { 3 } else { 4 },
         "Python StackCoder / QueueEncoder / QueueDecoder with every Huffman book of the sweep: every message up to 3 symbols comes back reversed from the exported and re-imported stack and in order from both queue decoders; bit rate == sum of codeword lengths; symbols outside the alphabet are refused without changing the coder",
-        &[], &["Huffman"]);
+        &[], &["Huffman", "inspections"]);
 }
 
 /// The bit-coder part of C08 (inspection never changes the output): same BFS / enumeration,
